@@ -1,10 +1,22 @@
 import Ptk.Proto
 import Ptk.Model.C03
-open Ptk Ptk.Py Ptk.Proto Ptk.C03
+import Ptk.Model.C03Utf8
+open Ptk Ptk.Py Ptk.Proto Ptk.C03 Ptk.C03.Utf8
 
 def cfg : Cfg := genCfg
 
+/-- driver state: a bare parser (ops feed/flush), a reader+parser (ops read/bflush), a bare
+    decoder buffer (op dec) -/
+structure DSt where
+  p : St
+  inp : InSt
+  dec : Bytes
+
+def DSt.init : DSt := { p := St.init, inp := InSt.init, dec := [] }
+
 def encKey (k : String) : String := encStr k.toList
+def encNats (l : List Nat) : String := "s:" ++ ",".intercalate (l.map toString)
+def decBytes (tok : String) : Option Bytes := (decStr tok).map (·.map Char.toNat)
 
 /-- `<n> key data key data … | inPaste paste prefix` ; the callback buffer is emptied after
     every op, like `Vt100Input._buffer`. -/
@@ -18,14 +30,29 @@ def pred (f : Text → Bool) (tok : String) : String :=
   | some t => encBool (f t)
   | none => "bad-op"
 
-def stepLine (s : St) (toks : List String) : St × String :=
+def stepLine (s : DSt) (toks : List String) : DSt × String :=
   match toks with
-  | ["reset"] => (St.init, "ok")
+  | ["reset"] => (DSt.init, "ok")
   | ["feed", d] =>
     match decStr d with
-    | some d => reply (feed cfg s d)
+    | some d => let (p, r) := reply (feed cfg s.p d); ({ s with p := p }, r)
     | none => (s, "bad-op")
-  | ["flush"] => reply (flush cfg s)
+  | ["flush"] => let (p, r) := reply (flush cfg s.p); ({ s with p := p }, r)
+  | ["dec", b] =>
+    match decBytes b with
+    | some b => let (cps, buf) := decode s.dec b; ({ s with dec := buf }, s!"{encNats cps} {encNats buf}")
+    | none => (s, "bad-op")
+  | ["read", b] =>
+    match decBytes b with
+    | some b =>
+      let st := readKeys cfg s.inp b
+      let (p, r) := reply st.p
+      ({ s with inp := { st with p := p } }, s!"{r} {encNats st.dec}")
+    | none => (s, "bad-op")
+  | ["bflush"] =>
+    let st := flushKeys cfg s.inp
+    let (p, r) := reply st.p
+    ({ s with inp := { st with p := p } }, s!"{r} {encNats st.dec}")
   | ["cpr", t] => (s, pred (isCpr cfg.isDigit) t)
   | ["mouse", t] => (s, pred (isMouse cfg.isDigit) t)
   | ["cprp", t] => (s, pred (isCprPrefix cfg.isDigit) t)
@@ -37,4 +64,4 @@ def stepLine (s : St) (toks : List String) : St × String :=
     | none => (s, "bad-op")
   | _ => (s, "bad-op")
 
-def main : IO Unit := runS stepLine St.init
+def main : IO Unit := runS stepLine DSt.init
